@@ -4,7 +4,7 @@ Every `assert(!overflow)` of the overflow-checked MIR and every wrap that the in
 an obligation / a quotient atom; the obligations are discharged by z3 in solve.py.
 """
 import re
-from poly import Poly, AtomTable
+from poly import Poly, DP, AtomTable
 
 
 class Unsupported(Exception):
@@ -37,9 +37,7 @@ class IntV:
     __slots__ = ("p", "ty", "modof")
 
     def __init__(self, p, ty, modof=None):
-        if isinstance(p, int):
-            p = Poly.const(p)
-        self.p, self.ty, self.modof = p, ty, modof
+        self.p, self.ty, self.modof = DP.lift(p), ty, modof
 
     def __repr__(self):
         return "IntV(%s:%s)" % (self.p.t if len(self.p.t) < 4 else "...", self.ty)
@@ -121,6 +119,7 @@ class Interp:
         self.const_cache = {}
         self.stats = dict(calls=0, blocks=0, quot_atoms=0, functions=set())
         self.max_blocks = 2000000
+        self.rem_index = {}
 
     # ------------------------------------------------------------------ inputs
     def input(self, name, ty, lo=None, hi=None):
@@ -129,8 +128,8 @@ class Interp:
         hi = th if hi is None else hi
         if self.env is not None:
             v = self.env.get(name, lo)
-            return IntV(Poly.const(v), ty)
-        return IntV(Poly.atom(self.tab.new(name, lo, hi)), ty)
+            return IntV(DP.const(v), ty)
+        return IntV(DP.atom(self.tab.new(name, lo, hi)), ty)
 
     def input_array(self, name, n, ty, lo=None, hi=None):
         his = hi if isinstance(hi, (list, tuple)) else [hi] * n
@@ -138,75 +137,75 @@ class Interp:
         return AggV([self.input("%s%d" % (name, i), ty, los[i], his[i]) for i in range(n)])
 
     def const(self, v, ty):
-        return IntV(Poly.const(v), ty)
+        return IntV(DP.const(v), ty)
 
     # ------------------------------------------------------------------ integer helpers
     def bound(self, P):
-        """sound interval of polynomial P. Plain interval arithmetic over the atoms, intersected with the interval obtained
-        after re-folding remainders: for a quotient atom q defined by X = q*2^k + R, 0 <= R < 2^k, a term -c*2^k*q in P is
-        read as c*R - c*X."""
-        lo1, hi1 = P.interval(self.tab)
-        atoms = self.tab.atoms
-        ids = sorted((a for a in P.atoms() if atoms[a]["kind"] == "quot"), reverse=True)
-        if not ids:
-            return lo1, hi1
-        elo = ehi = 0
-        Q = P
-        seen = set()
-        while True:
-            cand = [a for a in Q.atoms() if atoms[a]["kind"] == "quot" and a not in seen]
-            if not cand:
-                break
-            qi = max(cand)
-            seen.add(qi)
-            X, k = atoms[qi]["defn"]
-            a = Q.t.get((qi,), 0)
-            if a == 0 or a % (1 << k) != 0:
-                continue
-            c = -(a >> k)
-            Q = Q - (X - Poly.atom(qi).scale(1 << k)).scale(c)
-            if c >= 0:
-                ehi += c * ((1 << k) - 1)
-            else:
-                elo += c * ((1 << k) - 1)
-        lo2, hi2 = Q.interval(self.tab)
-        lo2, hi2 = lo2 + elo, hi2 + ehi
-        return max(lo1, lo2), min(hi1, hi2)
+        """sound interval of a (dual) polynomial: compact form first (remainders are atoms with tight bounds), intersected with the expanded form"""
+        return DP.lift(P).interval(self.tab)
 
     def divmod_pow2(self, X, k):
-        """floor division of polynomial X by 2^k -> (q, r) with X = q*2^k + r, 0 <= r < 2^k"""
+        """floor division of X by 2^k -> (q, r) with X = q*2^k + r, 0 <= r < 2^k (both dual polynomials)"""
+        X = DP.lift(X)
         if k == 0:
-            return X, Poly()
+            return X, DP()
         if X.is_const():
             q, r = divmod(X.cval(), 1 << k)
-            return Poly.const(q), Poly.const(r)
-        g = X.pow2_content()
+            return DP.const(q), DP.const(r)
+        g = X.e.pow2_content()
+        gc = X.c.pow2_content()
         if g >= k:
-            return X.div_exact(1 << k), Poly()
+            qe = X.e.div_exact(1 << k)
+            return DP(qe, X.c.div_exact(1 << k) if (gc is None or gc >= k) else qe), DP()
         if g > 0:
-            q, r = self.divmod_pow2(X.div_exact(1 << g), k - g)
+            ye = X.e.div_exact(1 << g)
+            q, r = self.divmod_pow2(DP(ye, X.c.div_exact(1 << g) if (gc is None or gc >= g) else ye), k - g)
             return q, r.scale(1 << g)
+        # syntactic split on the expanded form: terms whose coefficient is a multiple of 2^k vs the rest
         D, N = {}, {}
-        for m, c in X.t.items():
+        for m, c in X.e.t.items():
             (D if c % (1 << k) == 0 else N)[m] = c
         Np = Poly(N)
-        nl, nh = self.bound(Np)
+        nl, nh = Np.interval(self.tab)
         if nl >= 0 and nh < (1 << k):
-            return Poly(D).div_exact(1 << k), Np
-        key = (X.key(), k)
+            qd = Poly(D).div_exact(1 << k)
+            return DP(qd, qd), DP(Np, Np)
+        key = (X.e.key(), k)
         if key in self.tab.quot_cache:
-            q = Poly.atom(self.tab.quot_cache[key])
+            qi, ri = self.tab.quot_cache[key]
         else:
             xl, xh = self.bound(X)
-            qi = self.tab.new("q%d" % len(self.tab.atoms), xl >> k, xh >> k, kind="quot", defn=(X, k))
-            self.tab.quot_cache[key] = qi
-            q = Poly.atom(qi)
-            self.tab.constraints.append((X - q.scale(1 << k), 0, (1 << k) - 1))
+            n = len(self.tab.atoms)
+            qi = self.tab.new("q%d" % n, xl >> k, xh >> k, kind="quot", defn=(X.e, k))
+            ri = self.tab.new("r%d" % (n + 1), 0, (1 << k) - 1, kind="rem", defn=(X.e, k, qi))
+            self.tab.quot_cache[key] = (qi, ri)
+            # r == X - q*2^k, stated on both forms of X
+            self.tab.constraints.append((X.e - Poly.atom(qi).scale(1 << k) - Poly.atom(ri), 0, 0))
+            if X.c is not X.e and X.c != X.e:
+                self.tab.constraints.append((X.c - Poly.atom(qi).scale(1 << k) - Poly.atom(ri), 0, 0))
             self.stats["quot_atoms"] += 1
-        return q, X - q.scale(1 << k)
+            re_ = X.e - Poly.atom(qi).scale(1 << k)
+            c0 = re_.t.get((), 0)
+            self.rem_index[(re_ - Poly.const(c0)).key()] = (ri, c0)
+        q = DP.atom(qi)
+        r = DP(X.e - Poly.atom(qi).scale(1 << k), Poly.atom(ri))
+        return q, r
+
+    def canon(self, p):
+        """if the expanded form is (up to a constant) the remainder X - q*2^k of a known division, use the remainder atom as compact form
+        (code that computes `h -= carry << 26` by hand gets the same tight bounds as `h & mask`)"""
+        if p.is_const() or not self.rem_index:
+            return p
+        c0 = p.e.t.get((), 0)
+        hit = self.rem_index.get((p.e - Poly.const(c0)).key())
+        if hit is None:
+            return p
+        ri, cr = hit
+        return DP(p.e, Poly.atom(ri) + Poly.const(c0 - cr))
 
     def wrap(self, p, ty, src=None):
         """value of the two's-complement truncation of the mathematical integer p to type ty"""
+        p = self.canon(DP.lift(p))
         lo, hi = trange(ty)
         pl, ph = self.bound(p)
         if lo <= pl and ph <= hi:
@@ -216,8 +215,8 @@ class Interp:
         if src is not None and src.modof is not None and src.p is p and src.modof[1] >= w:
             base = src.modof[0]
         if signed:
-            _, r = self.divmod_pow2(base + Poly.const(1 << (w - 1)), w)
-            return IntV(r - Poly.const(1 << (w - 1)), ty)
+            _, r = self.divmod_pow2(base + DP.const(1 << (w - 1)), w)
+            return IntV(r - DP.const(1 << (w - 1)), ty)
         _, r = self.divmod_pow2(base, w)
         return IntV(r, ty, modof=(base, w))
 
@@ -238,6 +237,8 @@ class Interp:
         ty = a.ty
         if op in ("AddWithOverflow", "SubWithOverflow", "MulWithOverflow"):
             p = a.p + b.p if op[0] == "A" else (a.p - b.p if op[0] == "S" else a.p * b.p)
+            if op[0] != "M":
+                p = self.canon(p)
             return AggV([IntV(p, ty), OvfV(p, ty, "%s at %s" % (op, where))])
         if op in ("Add", "AddUnchecked"):
             return self.wrap(a.p + b.p, ty)
@@ -290,15 +291,15 @@ class Interp:
             if op == "BitOr":
                 for (x, y) in ((a, b), (b, a)):
                     xl, xh = self.bound(x.p)
-                    yl, _ = self.bound(y.p)
-                    if xl >= 0 and yl >= 0:
+                    # two's complement: a non-negative x < 2^k OR-ed with a multiple of 2^k (of either sign) is their sum
+                    if xl >= 0:
                         if xh == 0:
                             return y
                         k = xh.bit_length()
                         g = y.p.pow2_content()
                         if g is None or g >= k:
                             return IntV(x.p + y.p, ty)
-                raise Unsupported("BitOr of overlapping bit ranges at %s" % where)
+                raise Unsupported("BitOr of overlapping bit ranges at %s (a in %s content %s, b in %s content %s)" % (where, self.bound(a.p), a.p.pow2_content(), self.bound(b.p), b.p.pow2_content()))
             raise Unsupported("symbolic BitXor at %s" % where)
         if op in ("Lt", "Le", "Gt", "Ge", "Eq", "Ne"):
             d = a.p - b.p
@@ -419,6 +420,10 @@ class Interp:
         raise Unsupported("ambiguous name %r: %s" % (name, cands[:5]))
 
     def named_const(self, name):
+        m = re.match(r"^(?:core::num::<impl )?((?:u|i)(?:8|16|32|64|128|size))>?::(MIN|MAX)$", name)
+        if m:
+            lo, hi = trange(m.group(1))
+            return IntV(lo if m.group(2) == "MIN" else hi, m.group(1))
         gen = getattr(self, "generic", {}) or {}
         if name in gen:
             v, ty = gen[name]
@@ -477,8 +482,8 @@ class Interp:
                     return BoolV(not v.b)
                 lo, hi = trange(v.ty)
                 if lo == 0:
-                    return IntV(Poly.const(hi) - v.p, v.ty)
-                return IntV(Poly.const(-1) - v.p, v.ty)
+                    return IntV(DP.const(hi) - v.p, v.ty)
+                return IntV(DP.const(-1) - v.p, v.ty)
             if rv[1] == "Neg":
                 return self.wrap(-v.p, v.ty)
             if rv[1] == "PtrMetadata":
@@ -495,7 +500,7 @@ class Interp:
             return AggV([self.operand(fr, o) for o in rv[1]])
         if k == "repeat":
             n = rv[2]
-            m = re.match(r"^(?:const )?(\d+)_usize$", n)
+            m = re.match(r"^(?:const )?(\d+)(?:_usize)?$", n)
             if not m:
                 nv = self.named_const(n.replace("const ", ""))
                 cnt = nv.p.cval()
@@ -675,7 +680,7 @@ class Interp:
             ty, meth = m.group(1), m.group(2)
             if meth in ("from_le_bytes", "from_be_bytes"):
                 bs = a[0].f if meth == "from_le_bytes" else list(reversed(a[0].f))
-                p = Poly()
+                p = DP()
                 for i, b in enumerate(bs):
                     p = p + b.p.scale(1 << (8 * i))
                 return IntV(p, ty)
